@@ -146,9 +146,14 @@ chk('C11', 'exploration',
 chk('C18', 'translation_validation',
     'Output-equivalence monitor: every (file, option) pair is run through GNU readelf and through `python scripts/readelf.py` from /repo, '
     'and the two outputs are compared with a frozen copy of the project\'s own compare_output (its documented tolerated differences). '
-    'Workloads: the regression corpus x 18 options (a seed-rotated third in quick, all in thorough), gcc/clang-compiled objects at DWARF 2-5 '
-    'for 8 targets, and one synthesized file per entry of the clone\'s description tables in the machine/OS context the entry belongs to. '
+    'Workloads: the regression corpus x 18 options (a seed-rotated third in quick, all in thorough); gcc/clang-compiled objects at DWARF 2-5 '
+    'for 8 targets; one synthesized file (or DIE / frame instruction / attribute) per entry of the clone\'s description tables - ELF header, '
+    'machine flags, section, segment, symbol, dynamic-tag, note, relocation tables, every DW_OP per machine incl. a 64-bit-format unit, '
+    'DW_CFA, DW_TAG, DW_AT by class, DW_FORM, DW_LANG/ATE/... values, DW_UT, ARM and RISC-V build attributes - in the machine/OS context '
+    'the entry belongs to; and generated linker/compiler-shaped files (version sections, notes, symbol tables, relocation sections, '
+    'segment layouts, hex/string dumps, line tables v2-5, call-frame tables, aranges/pubnames/pubtypes, location and range lists). '
     'Decides equality on exactly the pairs run; says nothing about options or table entries not driven.',
     'Oracle is GNU readelf 2.40 on the image (the project pins 2.41): pairs where 2.40 is known to print an older layout are excluded and '
-    'counted; a description entry for which GNU itself prints a placeholder is unjudged and counted.',
-    'differential output monitor against GNU readelf under the project\'s tolerated-difference comparator', 'DESIGN.md section 4 C18')
+    'counted; a description entry for which GNU itself prints a placeholder is unjudged and counted; oracle_gaps_C18.json lists the '
+    'three vendor attribute names the oracle cannot decide.',
+    'differential output monitor against GNU readelf under the project\'s tolerated-difference comparator', 'DESIGN.md sections 4 C18 and 11.6')
